@@ -507,8 +507,10 @@ class CodeGenerator(NodeVisitor):
 
         # if any of the given keyword arguments is a python keyword
         # we have to make sure that no invalid call is created.
+        # ``__debug__`` is not a keyword but Python refuses it as the name of
+        # a keyword argument as well.
         kwarg_workaround = any(
-            is_python_keyword(t.cast(str, k))
+            is_python_keyword(t.cast(str, k)) or k == "__debug__"
             for k in chain((x.key for x in node.kwargs), extra_kwargs or ())
         )
 
